@@ -2042,7 +2042,10 @@ def _run_path(self, st):
         self.cur_result['unsupported'].append(str(e))
         # concolic fall-back: a concrete input of the path prefix; the runner completes the run natively
         fb = self.cur_result.setdefault('fallbacks', [])
-        if len(fb) < self.opts.get('fallbacks', 4):
+        self.cur_result['n_unsupported_paths'] = self.cur_result.get('n_unsupported_paths', 0) + 1
+        nfb = self.opts.get('fallbacks', 6)
+        # spread the budget over the unsupported paths (first few, then every 7th)
+        if len(fb) < nfb and (len(fb) < 3 or self.cur_result['n_unsupported_paths'] % 7 == 0):
             try:
                 if self.solver.check(st.pc + st.defs) == 'sat':
                     m = self.solver.model()
